@@ -257,7 +257,9 @@ def contract_case(case) -> List[Tuple[str, str]]:
                 os.environ["CLEMATIS_LOG_DIR"] = old
         where = f"batch driver, {style}-style state"
         if raised:
-            return [("ComputePhaseLeavesLiveStateAlone", f"{where}: the driver raised {raised}")]
+            out = [("ViewRejectsEveryStructuralMutation", f"{where}: stage code could run `{a}` on the state it was given in the compute phase") for a in accepted_all[:3]]
+            ev = [e for e in EVENTS if e[0] == "compute"]
+            return out + [("ComputePhaseLeavesLiveStateAlone", f"{where}: the driver raised {raised}" + (f"; live containers were mutated in the compute phase: {ev[:4]}" if ev else ""))]
         if len(results) != 2 or len(recv) != 2 or len(commit_seen) != 2:
             return [("ComputePhaseLeavesLiveStateAlone", f"{where}: {len(recv)} computes, {len(commit_seen)} commits, {len(results)} results (2 agents on disjoint graphs)")]
         for st in recv:
